@@ -213,7 +213,8 @@ func init() {
 	addTable(&tableSpec{name: "kvs", rowPkg: structsPkg, rowType: "DirEntry", keyField: "Key", emptyKeyFails: true,
 		indexes: map[string]indexSpec{"id_prefix": {kind: "prefix"}, "session": {kind: "fieldeq", field: "Session", lower: true}}})
 	addTable(&tableSpec{name: "session_checks", rowPkg: statePkg, rowType: "sessionCheck", keyFields: []string{"Node", "CheckID.ID", "Session"}, keyLower: []bool{true, true, false},
-		indexes: map[string]indexSpec{"session": {kind: "fieldeq", field: "Session", lower: true}}})
+		indexes: map[string]indexSpec{"session": {kind: "fieldeq", field: "Session", lower: true},
+			"node_check": {kind: "multieq", fields: []string{"Node", "CheckID.ID"}, lowers: []bool{true, true}}}})
 	addTable(&tableSpec{name: "prepared-queries", rowPkg: statePkg, rowType: "queryWrapper", keyField: "PreparedQuery.ID", lower: true,
 		indexes: map[string]indexSpec{"session": {kind: "fieldeq", field: "PreparedQuery.Session", lower: true}}})
 	addTable(&tableSpec{name: "tombstones", rowPkg: statePkg, rowType: "Tombstone", keyField: "Key", emptyKeyFails: true,
@@ -536,6 +537,44 @@ func (f *Frame) argKey(st *State, t *tableSpec, v *Term, at types.Type, n ast.No
 		k = f.c.strLower(k)
 	}
 	return k
+}
+
+// multiArgs: the (lower-cased where the index says so) values a compound-index query denotes: either one argument
+// per field, or a single state.MultiQuery{Value: []string{...}} whose Value has one element per field.
+func (f *Frame) multiArgs(st *State, e *ast.CallExpr, packed *Term, ix indexSpec) []*Term {
+	c := f.c
+	var want []*Term
+	if v, at, ok := f.varArg(st, e, packed, 2, 0); ok {
+		if n, isNamed := types.Unalias(at).(*types.Named); isNamed && n.Obj().Name() == "MultiQuery" {
+			si := c.structInfo(at)
+			idx, has := si.byName["Value"]
+			if !has {
+				f.fail(e, "MultiQuery without Value")
+			}
+			sl := c.fieldGet(v, si, idx)
+			c.assume(st, Eq(c.sliceLen(sl), IntLit(int64(len(ix.fields)))))
+			for i := range ix.fields {
+				x := Select(c.sliceArr(sl), IntLit(int64(i)))
+				if i < len(ix.lowers) && ix.lowers[i] {
+					x = c.strLower(x)
+				}
+				want = append(want, x)
+			}
+			return want
+		}
+	}
+	for i := range ix.fields {
+		v, at, ok := f.varArg(st, e, packed, 2, i)
+		if !ok {
+			f.fail(e, "compound index needs %d arguments", len(ix.fields))
+		}
+		v = f.argString(st, v, at, e)
+		if i < len(ix.lowers) && ix.lowers[i] {
+			v = c.strLower(v)
+		}
+		want = append(want, v)
+	}
+	return want
 }
 
 // altKey: the key computed from an object of the table's alternative argument type.
@@ -914,6 +953,19 @@ func modelGet(f *Frame, st *State, e *ast.CallExpr, recv *Term, args []*Term, si
 				fv = c.strLower(fv)
 			}
 			return Eq(fv, v)
+		}
+	case "multieq":
+		want := f.multiArgs(st, e, args[2], ix)
+		pred = func(w *State, row, key *Term) *Term {
+			var cs []*Term
+			for i, fld := range ix.fields {
+				fv := f.rowField(w, t, row, fld)
+				if i < len(ix.lowers) && ix.lowers[i] {
+					fv = c.strLower(fv)
+				}
+				cs = append(cs, Eq(fv, want[i]))
+			}
+			return And(cs...)
 		}
 	default:
 		f.fail(e, "Get on index kind %s unsupported", ix.kind)
